@@ -42,7 +42,8 @@ def layout(d):
     files = {'top.py': ENVDUMP, 'helper_sibling.py': 'X = 1\n', 'sub/inner.py': ENVDUMP, 'sub/helper_sibling.py': 'X = 2\n',
              'bin/onpath.py': ENVDUMP, 'bin/helper_sibling.py': 'X = 3\n', 'modx.py': ENVDUMP,
              'pkgm/__init__.py': '', 'pkgm/__main__.py': ENVDUMP.replace('import helper_sibling', 'import helper_sibling'),
-             'pkgm/leaf.py': ENVDUMP, 'setup_file.py': SETUP, 'sub/setup_in_sub.py': SETUP}
+             'pkgm/leaf.py': ENVDUMP, 'setup_file.py': SETUP, 'sub/setup_in_sub.py': SETUP,
+             'raises.py': ENVDUMP + 'raise ValueError("the program fails at its end")\n'}
     for rel, text in files.items():
         p = os.path.join(d, rel)
         os.makedirs(os.path.dirname(p), exist_ok=True)
@@ -59,6 +60,7 @@ TARGETS = [
     ('module', ['-m', 'modx'], ['-m', 'modx'], True),
     ('package', ['-m', 'pkgm'], ['-m', 'pkgm'], True),
     ('package.module', ['-m', 'pkgm.leaf'], ['-m', 'pkgm.leaf'], True),
+    ('raises', ['raises.py'], ['raises.py'], False),
 ]
 OPTSETS = [[], ['-l'], ['-b'], ['-l', '-b'], ['-l', '-v'], ['-l', '-z', '-u', '1e-3'], ['-l', '-i', '5'], ['-b', '-i', '5'], ['-i', '3'],
            ['-l', '-o', 'custom.out'], ['-l', '-s', 'setup_file.py'], ['-s', 'setup_file.py'], ['-l', '-p', 'helper_sibling'],
@@ -105,6 +107,15 @@ def compare(target, opts, pargs, r):
     """-> (violations, known) lists"""
     name, _py, _kp, is_module = target
     viol, known = [], []
+    if name == 'raises':
+        # a program that dies from an uncaught exception: same traceback tail, and kernprof must not outlive it
+        if r['py']['rc'] == 0 or r['kp']['rc'] == 0:
+            viol.append({'exit_codes': [r['py']['rc'], r['kp']['rc']]})
+        if 'ValueError: the program fails at its end' not in r['kp']['err']:
+            viol.append({'traceback_missing': r['kp']['err'][-300:]})
+        if r['kp']['t'] > r['py']['t'] + 1.5:
+            viol.append({'exit_latency_s': round(r['kp']['t'], 2), 'python_s': round(r['py']['t'], 2)})
+        return viol, known
     if r['py']['rc'] != 0:
         return [{'harness': 'direct python run failed', 'stderr': r['py']['err']}], []
     if r['kp']['rc'] != 0:
@@ -150,6 +161,7 @@ def run(ctx):
     combos = [(t, o, p) for t in TARGETS for o in OPTSETS for p in PROG_ARGS]
     if ctx.quick:
         base = [(t, o, PROG_ARGS[(i + j) % 3]) for i, t in enumerate(TARGETS) for j, o in enumerate(OPTSETS) if (i + j) % 3 == 0 or o in (['-l', '-i', '5'], ['-l', '-s', 'setup_file.py'])]
+        base += [(TARGETS[-1], o, []) for o in (['-l', '-i', '5'], ['-b', '-i', '5'], ['-i', '3'])]
         combos = base + ctx.rng.fork('c').sample(combos, 12)
     if ctx.broken:
         combos = [(t, o, p) for t in TARGETS for o in OPTSETS for p in PROG_ARGS[:2]]
@@ -170,7 +182,7 @@ def run(ctx):
             nontrivial.add(json.dumps([t[0], o, p]))
     ctx.coverage.update({
         'evaluations': len(combos), 'distinct_nontrivial': len(nontrivial),
-        'rule': '7 placements (relative, sub-directory, absolute, on PATH, -m module, -m package, -m package.module) x 16 option sets '
+        'rule': '7 placements (relative, sub-directory, absolute, on PATH, -m module, -m package, -m package.module) + a program dying from an uncaught exception, x 16 option sets '
                 '(-l -b -v -z -u -i -o -s -p --prof-imports -r) x 3 program-argument lists (sampled in quick); each run twice (python, kernprof) in fresh processes',
         'traces_validated_against_impl': len(combos), 'target_distribution': dist})
     ctx.coverage['samples'].append({'target': combos[-1][0][0], 'options': combos[-1][1], 'program_args': combos[-1][2],
